@@ -71,6 +71,28 @@ CHECKS["C16"] = {
     "note": TB + "; key order is Python's str order, handed to TLC as ranks; trailing comment runs unconstrained",
 }
 
+_SPL = ("BibSplitter.tla models the scanner as one control machine over tokens (Appendix A of DESIGN.md); MC_Splitter explores, "
+        "from each of 33 prefixes (one way into every control state, also after complete blocks), all suffixes over a "
+        "16-symbol alphabet (3 steps quick = 1.1e5 inputs; 4 steps + 5 steps from the empty prefix thorough) and checks "
+        "NoInternalError, Tiling, Lines, FieldLines, FailedCarry, Shapes, PrefixStable, Resync on the model; ")
+CHECKS["C01"] = {
+    "text": _SPL + "every input is concretised in 2-4 spellings and run through Splitter.split, parse_string and "
+            "write_string (any exception, or a failed block without error/raw, is a violation); size-scaled families "
+            "(1e3..1e5 lines, deep nesting, unterminated blocks) and seeded garbage are run under a time budget and their "
+            "block structure is checked against the specification by TLC (Oracle_Splitter).",
+    "ref": "6/C01", "technique": "TLA+ spec (BibSplitter.tla) + TLC bounded-exhaustive input enumeration replayed into the code + TLC oracle on recorded runs",
+    "note": TB + "; the lexer/concretiser pair alpha/gamma; termination on the code is a time budget (30 s + 0.2 ms/char, twice)",
+}
+CHECKS["C03"] = {
+    "text": _SPL + "every input is concretised (tabs, CR, backslash-newline, several @type spellings) and the observed raw "
+            "texts are located in the input in order (abstraction function: a raw that does not occur where the previous "
+            "one ended, or a non-blank gap, is the tiling violation); ranges, start lines and field lines are compared with "
+            "the exported ones and any difference is judged by TLC evaluating Tiling and Lines on the OBSERVED ranges, with "
+            "the end of a failed block free in (start, next block start]; families, garbage and packed documents likewise.",
+    "ref": "6/C03", "technique": "TLA+ spec (BibSplitter.tla) + TLC bounded-exhaustive replay + TLC evaluation of Tiling/Lines on observed ranges",
+    "note": TB + "; the lexer/concretiser pair alpha/gamma and the char-level matcher locate()",
+}
+
 NOT_APPLICABLE = {}
 for _e in ENGINES:
     _e["serves_properties"] = sorted(CHECKS)
